@@ -77,6 +77,13 @@ TRUSTED = ["xmlsec1 stand-in (sign/verify/encrypt/decrypt; --decrypt opens the f
            "attribute-restoring finally blocks and no return/break/continue inside -> except BaseException: F; raise + F; "
            "f(.., **kwargs) -> f(.., kwargs); the logging-only `if \"..\" in f\"{err}\"` inside a handler dropped), for "
            "entity.py:Entity._parse_response and client_base.py:Base.parse_authn_request_response (coq/gen/C01Src2p.v); "
+           "and, after the three rewrites of harness/c01.py:_DesugarPA (the bytes-vs-str block after a decryption round dropped - "
+           "both texts are str, read off CryptoBackendXmlSec1.decrypt / SecurityContext.decrypt_keys by check_decrypt_returns_str -; "
+           "the body of `if tmp_ass.advice and tmp_ass.advice.encrypted_assertion:` cut out (raise AdviceNotTied; C04's business); "
+           "name.attr.attr2 = E split into three assignments), for response.py:AuthnResponse.parse_assertion "
+           "(coq/gen/C01Src2a.v; `while` = recursion on fuel), run in C01/Source2pa.v with the engine functions ext_* there "
+           "(decrypt_keys opens ONE EncryptedData per call) on every list of <= 3 assertions and on the lists of <= 5 over a "
+           "reduced alphabet; "
            "theorems c01_source2_*; the translation specs (external calls as extra arguments; exception class parents "
            "EXC_PARENTS, compared with the live classes on every run); in C01/Source2.v: the encodings, the functions ext_* "
            "standing for the external calls in the theorems proved by evaluation, and Python's keyword binding "
@@ -151,12 +158,13 @@ def regenerate_tables(ctx):
 
     src2 = py2coq2.regenerate(os.path.join(common.GEN, "C01Src2.v"), source2_items())
     src2p = regenerate_desugared(os.path.join(common.GEN, "C01Src2p.v"))
-    info["changed"] = bool(changed or src2["changed"] or src2p["changed"])
-    info["obligations"] += src2["obligations"] + src2p["obligations"]
-    info["discharged"] += src2["discharged"] + src2p["discharged"]
-    info["untranslatable"] = list(src2["untranslatable"]) + list(src2p["untranslatable"])
-    info["files"] = ["coq/gen/C01Tables.v", "coq/gen/C01Src2.v", "coq/gen/C01Src2p.v"]
-    info["source2"] = {"C01Src2.v": src2, "C01Src2p.v": src2p}
+    src2a = regenerate_parse_assertion(os.path.join(common.GEN, "C01Src2a.v"))
+    info["changed"] = bool(changed or src2["changed"] or src2p["changed"] or src2a["changed"])
+    info["obligations"] += src2["obligations"] + src2p["obligations"] + src2a["obligations"]
+    info["discharged"] += src2["discharged"] + src2p["discharged"] + src2a["discharged"]
+    info["untranslatable"] = list(src2["untranslatable"]) + list(src2p["untranslatable"]) + list(src2a["untranslatable"])
+    info["files"] = ["coq/gen/C01Tables.v", "coq/gen/C01Src2.v", "coq/gen/C01Src2p.v", "coq/gen/C01Src2a.v"]
+    info["source2"] = {"C01Src2.v": src2, "C01Src2p.v": src2p, "C01Src2a.v": src2a}
     info["functions"] = SOURCE2_FUNCTIONS
     info["source_theorems"] = ["c01_source2_* (C01/Property.v, proofs in C01/Source2.v): each translated function applied to "
                                "the encoded model input equals the encoded output of the model function it mirrors"]
@@ -166,7 +174,8 @@ def regenerate_tables(ctx):
 # ---------------------------------------------------------------------------- translator v2 (source tie)
 SOURCE2_FUNCTIONS = ["sigver.py:SecurityContext.correctly_signed_response", "response.py:AuthnResponse._assertion",
                      "response.py:AuthnResponse.__init__", "client_base.py:Base.__init__",
-                     "entity.py:Entity._parse_response (desugared)", "client_base.py:Base.parse_authn_request_response (desugared)"]
+                     "entity.py:Entity._parse_response (desugared)", "client_base.py:Base.parse_authn_request_response (desugared)",
+                     "response.py:AuthnResponse.parse_assertion (desugared; while loops on fuel)"]
 EXC_PARENTS = {"SAMLError": ["Exception"], "SigverError": ["SAMLError", "Exception"],
                "SignatureError": ["SigverError", "SAMLError", "Exception"],
                "MissingKey": ["SigverError", "SAMLError", "Exception"], "VerificationError": ["SAMLError", "Exception"],
@@ -385,6 +394,132 @@ def regenerate_desugared(gen_path):
     changed = common.write_if_changed(gen_path, "\n".join(out))
     return {"translated": names, "untranslatable": failed, "changed": changed, "obligations": len(names),
             "discharged": len(names) - len(failed)}
+
+
+class _DesugarPA(ast.NodeTransformer):
+    """Three syntactic rewrites that bring AuthnResponse.parse_assertion into the subset of py2coq2 (each applies only to
+    the exact shape described; anything else is left alone and then refused by the translator: fail-closed).
+    (1) `if type(A) != type(B): if isinstance(A, bytes): A = A.decode("utf-8") else: A = A.encode("utf-8")` is dropped:
+        both texts are str here (str(self.response) and what SecurityContext.decrypt_keys returns:
+        check_decrypt_returns_str reads that off the live source), so the test is False.
+    (2) the body of `if tmp_ass.advice and tmp_ass.advice.encrypted_assertion:` (EncryptedAssertions inside saml:Advice,
+        mutations through tmp_ass.advice.*: the business of C04) becomes `raise AdviceNotTied`: the tie covers
+        assertions without such Advice, where the test is false; the test itself is translated.
+    (3) `name.attr.attr2 = E` ==> `name_attr = name.attr; name_attr.attr2 = E; name.attr = name_attr` (the translator
+        mutates through a name or name.attr only; no aliasing is modelled, as everywhere in v2)."""
+
+    def visit_If(self, node):
+        self.generic_visit(node)
+        t = ast.unparse(node.test)
+        m = re.fullmatch(r"type\((\w+)\) != type\((\w+)\)", t)
+        if m:
+            a = m.group(1)
+            want = 'if isinstance(%s, bytes):\n    %s = %s.decode("utf-8")\nelse:\n    %s = %s.encode("utf-8")' % (a, a, a, a, a)
+            body = [b for b in node.body if not (isinstance(b, ast.Expr) and isinstance(b.value, ast.Constant))]
+            if not node.orelse and len(body) == 1 and ast.unparse(body[0]).replace("'", '"') == want:
+                return ast.Pass()
+            return node
+        if t == "tmp_ass.advice and tmp_ass.advice.encrypted_assertion" and not node.orelse:
+            node.body = [ast.Raise(exc=ast.Name(id="AdviceNotTied", ctx=ast.Load()), cause=None)]
+        return node
+
+    def visit_Assign(self, node):
+        self.generic_visit(node)
+        t = node.targets[0]
+        if len(node.targets) == 1 and isinstance(t, ast.Attribute) and isinstance(t.value, ast.Attribute) \
+                and isinstance(t.value.value, ast.Name):
+            base, mid = t.value.value.id, t.value.attr
+            tmp = "%s_%s" % (base, mid)
+            return [ast.parse("%s = %s.%s" % (tmp, base, mid)).body[0],
+                    ast.Assign(targets=[ast.Attribute(value=ast.Name(id=tmp, ctx=ast.Load()), attr=t.attr, ctx=ast.Store())],
+                               value=node.value),
+                    ast.parse("%s.%s = %s" % (base, mid, tmp)).body[0]]
+        return node
+
+
+def check_decrypt_returns_str():
+    """Rewrite (1) of _DesugarPA rests on: the decrypted text is a str.  CryptoBackendXmlSec1.decrypt must end with
+    `return output.decode("utf-8")`, SecurityContext.decrypt_keys must return what SecurityContext.decrypt returns."""
+    from harness import py2coq2
+
+    with open(os.path.join(env.SRC, "saml2", "sigver.py")) as f:
+        tree = ast.parse(f.read())
+    dec = py2coq2.find_function(tree, "CryptoBackendXmlSec1.decrypt")
+    last = dec.body[-1]
+    if not (isinstance(last, ast.Return) and ast.unparse(last.value).replace("'", '"') == 'output.decode("utf-8")'):
+        raise py2coq2.Untranslatable("CryptoBackendXmlSec1.decrypt does not end with return output.decode('utf-8')")
+    dk = py2coq2.find_function(tree, "SecurityContext.decrypt_keys")
+    tail = [ast.unparse(x) for x in dk.body[-2:]]
+    if tail != ["dectext = self.decrypt(enctext, key_file=key_file_names)", "return dectext"]:
+        raise py2coq2.Untranslatable("SecurityContext.decrypt_keys does not return self.decrypt(..): %r" % (tail,))
+
+
+def _call_decrypt_assertions(a, kw):
+    from harness import py2coq2
+
+    a = list(a)
+    if not 2 <= len(a) <= 3 or not set(kw) <= {"verified"} or (len(a) == 3 and kw):
+        raise py2coq2.Untranslatable("self.decrypt_assertions: %d positional and keyword arguments %s" % (len(a), sorted(kw)))
+    return "(decrypt_assertions v_self %s %s %s %s)" % (a[0], a[1], a[2] if len(a) == 3 else "PNone", kw.get("verified", "(PBool false)"))
+
+
+def _call_decrypt_keys(a, kw):
+    _kw("self.sec.decrypt_keys", ["keys"], a, 1, kw)
+    return "(decrypt_keys v_self %s %s)" % (a[0], kw["keys"])
+
+
+def parse_assertion_item():
+    return (os.path.join(env.SRC, "saml2", "response.py"), "AuthnResponse.parse_assertion", {
+        "name": "src2_parse_assertion", "params": ["self", "keys"], "returns_state": ["self"],
+        "extra_params": [("fuel", "nat"), ("assertion_ext", "pyval -> pyval -> pyval -> pyval"),
+                         ("find_encrypt_data", "pyval -> pyval -> pyval"), ("find_list", "pyval -> pyval -> pyval"),
+                         ("decrypt_keys", "pyval -> pyval -> pyval -> pyval"), ("response_from_string", "pyval -> pyval"),
+                         ("decrypt_assertions", "pyval -> pyval -> pyval -> pyval -> pyval -> pyval"),
+                         ("get_identity", "pyval -> pyval"), ("str_ext", "pyval -> pyval")],
+        "exc_parents": dict(EXC_PARENTS, DecryptError=["XmlsecError", "SigverError", "SAMLError", "Exception"],
+                            XmlsecError=["SigverError", "SAMLError", "Exception"], InvalidAssertion=["SAMLError", "Exception"]),
+        "ignore_calls": LOGGING,
+        "calls": {"self._assertion": lambda a: "(assertion_ext v_self %s %s)" % tuple(a),
+                  "self.find_encrypt_data": lambda a: "(find_encrypt_data v_self %s)" % a[0],
+                  "self.find_encrypt_data_assertion_list": lambda a: "(find_list v_self %s)" % a[0],
+                  "self.sec.decrypt_keys": _call_decrypt_keys,
+                  "samlp.response_from_string": lambda a: "(response_from_string %s)" % a[0],
+                  "self.decrypt_assertions": _call_decrypt_assertions,
+                  "self.get_identity": lambda a: "(get_identity v_self)",
+                  "str": lambda a: "(str_ext %s)" % a[0]}})
+
+
+def check_pa_exc_parents():
+    import saml2.response
+    import saml2.sigver
+
+    for name, cls, want in (("DecryptError", saml2.sigver.DecryptError, ["XmlsecError", "SigverError", "SAMLError", "Exception"]),
+                            ("InvalidAssertion", saml2.response.InvalidAssertion, ["SAMLError", "Exception"])):
+        got = [c.__name__ for c in cls.__mro__[1:] if c.__name__ in ("XmlsecError", "SigverError", "SAMLError", "Exception")]
+        if got != want:
+            raise RuntimeError("exception hierarchy of the live code differs from harness/c01.py:parse_assertion_item: %s has %r" % (name, got))
+
+
+def regenerate_parse_assertion(gen_path):
+    """AuthnResponse.parse_assertion -> coq/gen/C01Src2a.v (py2coq2.translate_def after _DesugarPA; the two `while` loops
+    become recursion on the extra parameter `fuel`); fail-closed like py2coq2.regenerate."""
+    from harness import py2coq2
+
+    path, q, spec = parse_assertion_item()
+    out, failed = [py2coq2.HEADER], []
+    try:
+        check_decrypt_returns_str()
+        check_pa_exc_parents()
+        with open(path) as f:
+            fn = py2coq2.find_function(ast.parse(f.read()), q)
+        fn = ast.fix_missing_locations(_DesugarPA().visit(fn))
+        out.append(py2coq2.translate_def(fn, spec, "%s:%s (the bytes/str block dropped, the saml:Advice block cut out, nested attribute "
+                                                   "assignments split by harness/c01.py:_DesugarPA)" % (path.split("/src/")[-1], q)))
+    except (py2coq2.Untranslatable, OSError, SyntaxError, RuntimeError) as e:
+        failed.append("%s: %s" % (q, e))
+        out.append(py2coq2.poison(q, spec, str(e)))
+    changed = common.write_if_changed(gen_path, "\n".join(out))
+    return {"translated": [q], "untranslatable": failed, "changed": changed, "obligations": 1, "discharged": 1 - len(failed)}
 
 
 # ---------------------------------------------------------------------------- case format
